@@ -33,7 +33,8 @@ def gen_world(rng, profile=None):
     fleets = rng.choice([[], [], ['fa'], ['fa', 'fb']]) if 'fleets' not in profile else profile['fleets']
     cancel = rng.choice([60, 300, 600])
     cfg = base_config()
-    cfg = cfg._replace(sim=cfg.sim._replace(request_cancel_time_seconds=cancel, timestep_duration_seconds=delta))
+    cfg = cfg._replace(sim=cfg.sim._replace(request_cancel_time_seconds=cancel, timestep_duration_seconds=delta),
+                       dispatcher=cfg.dispatcher._replace(max_search_radius_km=1.0))   # 100 km default => k_ring(760) ring searches when no valid station exists
     sched_defs = {'s1': rng.choice([(8 * 3600, 17 * 3600), (22 * 3600, 6 * 3600), (0, 0), (3600, 3600 + 2 * delta)])}
     def mk_sched(a, b):
         from nrel.hive.util.time_helpers import time_in_range
